@@ -286,7 +286,7 @@ fn exec_on(envs: &[Arc<Env>], e: usize, cs: &mut ClientState, op: &Op, record_tr
         Op::Getters => current(env, cs, e).getters(),
         Op::Build => match sampler::build(&env.spec) {
             Built::Ok(s) => {
-                let d = s.image().digest();
+                let d = s.image_settled().digest();
                 cs.local[e] = Some((Arc::from(s), false));
                 Outcome::Image(d)
             }
@@ -302,11 +302,11 @@ fn exec_on(envs: &[Arc<Env>], e: usize, cs: &mut ClientState, op: &Op, record_tr
             let s = current(env, cs, e);
             match persist(&*s, *fmt) {
                 Ok(d) => {
-                    let h = match &d {
-                        Durable::Tree(t) | Durable::TreeBinary(t) => t.digest(),
-                        Durable::Json(j) => hash_str(j),
-                        Durable::JsonValue(v) => hash_str(&v.to_string()),
-                    };
+                    // what is WRITTEN may legitimately depend on which lazily
+                    // initialised parts exist already (history); what it MEANS may
+                    // not: the outcome is the settled image of the sampler, the
+                    // written form itself is judged by restoring it
+                    let h = s.image_settled().digest();
                     *env.disk.lock().unwrap() = Some(d);
                     Outcome::Image(h)
                 }
@@ -345,7 +345,7 @@ fn exec_on(envs: &[Arc<Env>], e: usize, cs: &mut ClientState, op: &Op, record_tr
                         Err(e) => Outcome::Err(format!("restore failed: {}", e)),
                         Ok(s) => {
                             let s: Arc<dyn Sampler> = Arc::from(s);
-                            let dig = s.image().digest();
+                            let dig = s.image_settled().digest();
                             if *publish {
                                 *env.shared.lock().unwrap() = (s.clone(), true);
                                 *env.restarts_published.lock().unwrap() += 1;
@@ -357,7 +357,7 @@ fn exec_on(envs: &[Arc<Env>], e: usize, cs: &mut ClientState, op: &Op, record_tr
                 }
             }
         }
-        Op::ImageCheck => Outcome::Image(current(env, cs, e).image().digest()),
+        Op::ImageCheck => Outcome::Image(current(env, cs, e).image_settled().digest()),
         Op::SampleXP { point, ed, st, prec } => current(env, cs, e).sample_x_p(point, ed, st, *prec),
         Op::Burst { seed, n, ed, st } => {
             let s = current(env, cs, e);
@@ -630,7 +630,7 @@ pub fn run_scenario(sc: &Scenario, opts: &RunOpts) -> RunReport {
             }
         }
     }
-    let ref_images: Vec<Tree> = refs_v.iter().map(|r| r.image()).collect();
+    let ref_images: Vec<Tree> = refs_v.iter().map(|r| r.image_settled()).collect();
     let ref_digests: Vec<u64> = ref_images.iter().map(|t| t.digest()).collect();
     let dims: Vec<usize> = refs_v.iter().map(|r| r.dimension()).collect();
     let nenv = specs.len();
@@ -808,14 +808,14 @@ pub fn run_scenario(sc: &Scenario, opts: &RunOpts) -> RunReport {
     }
     // the reference samplers themselves must not have been modified by all that
     for e in 0..nenv {
-        if refs_v[e].image().digest() != ref_digests[e] {
+        if refs_v[e].image_settled().digest() != ref_digests[e] {
             violations.push(Violation {
                 class: "sampler-modified-by-sampling".into(),
                 client: 0,
                 op: 0,
                 op_tag: "reference".into(),
                 expected: format!("image {:016x}", ref_digests[e]),
-                observed: format!("image {:016x}", refs_v[e].image().digest()),
+                observed: format!("image {:016x}", refs_v[e].image_settled().digest()),
             });
         }
     }
@@ -853,7 +853,7 @@ pub fn run_scenario(sc: &Scenario, opts: &RunOpts) -> RunReport {
         }
     }
     ctx::uninstall();
-    let images_before: Vec<Tree> = runs_v.iter().map(|r| r.image()).collect();
+    let images_before: Vec<Tree> = runs_v.iter().map(|r| r.image_settled()).collect();
     for e in 0..nenv {
         if images_before[e].digest() != ref_digests[e] {
             let mut p = String::from("sampler");
@@ -1067,7 +1067,7 @@ pub fn run_scenario(sc: &Scenario, opts: &RunOpts) -> RunReport {
     // the shared sampler was never modified (unless a restart replaced the object,
     // in which case the replacement must have the same image anyway)
     for e in 0..nenv {
-        let image_after = envs[e].shared.lock().unwrap().0.image();
+        let image_after = envs[e].shared.lock().unwrap().0.image_settled();
         if image_after.digest() != images_before[e].digest() {
             let mut p = String::from("sampler");
             violations.push(Violation {
@@ -1087,14 +1087,14 @@ pub fn run_scenario(sc: &Scenario, opts: &RunOpts) -> RunReport {
                 ),
             });
         }
-        if runs_v[e].image().digest() != images_before[e].digest() {
+        if runs_v[e].image_settled().digest() != images_before[e].digest() {
             violations.push(Violation {
                 class: "sampler-modified-by-sampling".into(),
                 client: 0,
                 op: 0,
                 op_tag: "original-object".into(),
                 expected: format!("image {:016x}", images_before[e].digest()),
-                observed: format!("image {:016x}", runs_v[e].image().digest()),
+                observed: format!("image {:016x}", runs_v[e].image_settled().digest()),
             });
         }
     }
